@@ -207,6 +207,9 @@ class Node(HasTraits):
     def _value_changed(self):
         self.samples                       # ... touched by a static handler of a persisted trait (also while a state is applied)
 
+    def _pre_dirty_changed(self):
+        self.doubled                       # a cached property READ by a handler of a trait that is restored before its dependency
+
     pre_dirty = Int(0)     # persisted counter declared (hence restored) BEFORE the traits whose post_init handlers write it
     name = Str("n")
     value = Int(0)
@@ -265,7 +268,7 @@ class Node(HasTraits):
 COPIERS = ["pickle0", "pickle1", "pickle2", "pickle3", "pickle4", "pickle5", "deepcopy", "clone", "copy_traits_deep", "copy_traits_shallow",
            "setstate_quiet", "clone_deep"]
 BUILD_OPS = ["none", "value", "rename", "items", "kids", "table", "tags", "grid", "once", "scratch", "sel_alias", "kid_value",
-             "read_once", "group_alias", "bykey_alias", "mode", "counters", "expr"]
+             "read_once", "group_alias", "bykey_alias", "mode", "counters", "expr", "once_none"]
 
 
 def do_copy(how, n):
@@ -310,6 +313,10 @@ def history_harness(k):
                 if not wrote:
                     n.once = "written"
                     wrote = True
+            elif op == "once_none":
+                if not wrote:
+                    n.once = None              # None is a value like any other: the attribute is written
+                    wrote = "none"
             elif op == "scratch":
                 n.tmp = 99
             elif op == "sel_alias":
@@ -367,6 +374,8 @@ def history_harness(k):
             if n.group and (how in ("deepcopy", "clone") or how.startswith("pickle")):
                 ex.check(len(c.group) == len(n.group) and all(any(g is kk for kk in c.kids) for g in c.group),
                          "aliasing inside the copied graph is preserved (members of the Set are the copy's own kids)")
+        if how != "copy_traits_shallow" and not how.startswith("copy_traits"):
+            ex.check(c.doubled == c.value * 2, "a cached property of the copy is not stale, whatever read it while the state was applied")
         ex.check(c.mode == n.mode and c.mode_ == {"dot": 1, "dash": 2, "solid": 3}[c.mode],
                  "a mapped trait's shadow attribute on the copy is the mapping of the copy's value")
         if deep and n.bykey and (how in ("deepcopy", "clone_deep", "copy_traits_deep") or how.startswith("pickle") or how == "setstate_quiet"):
@@ -390,8 +399,15 @@ def history_harness(k):
             except TraitError:
                 second_ok = False
             ex.check(not second_ok, "... and only one")
+        if wrote:
+            try:
+                n.once = "again on the original"
+                rewritable0 = True
+            except TraitError:
+                rewritable0 = False
+            ex.check(not rewritable0, "a write-once attribute accepts exactly one assignment, whatever was assigned")
         if wrote and how not in ("copy_traits_deep", "copy_traits_shallow"):
-            ex.check(c.once == "written", "write-once attribute stays written")
+            ex.check(c.once == ("written" if wrote is True else None), "write-once attribute stays written")
             try:
                 c.once = "again"
                 rewritable = True
@@ -455,6 +471,50 @@ def history_harness(k):
     return harness
 
 
+class Limit:
+    """module level (picklable): owns a stand-alone TraitList validated by its bound method"""
+
+    def __init__(self, top):
+        import traits.trait_list_object as tlo_
+        self.top = top
+        self.lst = tlo_.TraitList([1, 2], item_validator=self.check)
+
+    def check(self, item):
+        if not isinstance(item, int) or item > getattr(self, "top", 10 ** 9):      # (a copy under construction has no state yet)
+            raise TraitError("too big")
+        return item
+
+
+def bare_list_harness(ex):
+    """a stand-alone TraitList whose item validator is a BOUND METHOD of an owner object: a deep copy of the pair validates against
+    the copy of the owner, not the original"""
+    o = Limit(10)
+    how = ex.choice("copier", 3)
+    if how == 0:
+        c = copy.deepcopy(o)
+    elif how == 1:
+        c = pickle.loads(pickle.dumps(o, protocol=2 + ex.choice("protocol", 4)))
+    else:
+        c = Limit(10)
+        c.lst = copy.deepcopy(o.lst, {id(o): c})          # the memo maps the owner to its copy
+    ex.check(list(c.lst) == [1, 2] and c.lst is not o.lst, "the copy holds an equal list of its own")
+    o.top = 100                     # the ORIGINAL owner becomes lax: the copy still validates by its own owner
+    try:
+        c.lst.append(50)
+        rej = False
+    except TraitError:
+        rej = True
+    ex.check(rej and list(c.lst) == [1, 2], "the copied list is validated by the copy of its owner")
+    c.top = 1000
+    try:
+        c.lst.append(500)
+        ok = True
+    except TraitError:
+        ok = False
+    ex.check(ok and list(o.lst) == [1, 2], "... and follows the copy's state, leaving the original alone")
+    return {"how": how}
+
+
 def obligations(tier, build):
     cenv.load_program(build)
     obs = []
@@ -464,6 +524,8 @@ def obligations(tier, build):
                               leverage="none beyond path feasibility: the obligation is a per-kind equality of abstract records",
                               witness_violations=True,
                               crash_is_violation="the trait definition object survives a getstate/pickle/copy round trip without crashing"))
+    obs.append(Obligation("bare-list-bound-validator", bare_list_harness, bounds={"copiers": ["deepcopy", "pickle 2-5", "deepcopy with the owner in the memo"]},
+                          leverage="choice feasibility only"))
     K = 2 if tier == "quick" else 3
     obs.append(Obligation("history/k=%d" % K, history_harness(K),
                           bounds={"state-building operations": BUILD_OPS, "k": K, "copiers": COPIERS},
